@@ -7,11 +7,26 @@ open MythVerif.Wsq
 @[simp] theorem code_popFence : FenceCfg.code.popFence = true := rfl
 @[simp] theorem code_takeFence : FenceCfg.code.takeFence = true := rfl
 @[simp] theorem code_unlockFence : FenceCfg.code.unlockFence = true := rfl
+@[simp] theorem code_wtakeFence : FenceCfg.code.wtakeFence = true := rfl
+@[simp] theorem code_wpeekFence : FenceCfg.code.wpeekFence = true := rfl
 
 theorem getLast?_tail_of_length (x : Elem) (A' : List Elem) (h : A' ≠ []) : (x :: A').getLast? = A'.getLast? := by
   cases A' with
   | nil => exact absurd rfl h
   | cons a t => simp [List.getLast?_cons_cons]
+
+theorem dropLast_keep (A : List Elem) (h : 2 ≤ A.length) : A.dropLast ≠ [] ∧ A.dropLast.head? = A.head? := by
+  cases A with
+  | nil => simp at h
+  | cons a t =>
+    cases t with
+    | nil => simp at h
+    | cons b u => simp [List.dropLast]
+
+theorem head?_append_of_ne (A : List Elem) (e : Elem) (h : A ≠ []) : (A ++ [e]).head? = A.head? := by
+  cases A with
+  | nil => exact absurd rfl h
+  | cons a t => simp
 
 theorem carry_viewTop (bufO : List Sto) (top lt : Int) (ptr : Int → Option Elem) (A : List Elem)
     (h : CarryShape bufO top lt ptr A) : viewTop bufO top = lt := by
@@ -39,19 +54,76 @@ theorem carry_tail (bufO : List Sto) (top lt lb : Int) (ptr : Int → Option Ele
 
 theorem pof_tail (bufO : List Sto) (top lt lb t : Int) (ptr : Int → Option Elem) (x : Elem) (A' : List Elem)
     (h : PofShape bufO top ptr (x :: A') t) (hlt : lt = t + 1)
-    (hlen : (((x :: A').length : Nat) : Int) = lt - lb) (hb : lb < top) :
+    (hlen : (((x :: A').length : Nat) : Int) = lt - lb) (hb : lb < top ∨ bufO = []) :
     PofShape bufO top ptr A' t := by
-  have hne : top = t → A' ≠ [] := by
-    intro ht hA; subst hA; simp at hlen; omega
+  have hne : top = t → bufO ≠ [] → A' ≠ [] := by
+    intro ht hbn hA
+    rcases hb with hb | hb
+    · subst hA; simp at hlen; omega
+    · exact hbn hb
   rcases h with ⟨h1, h2⟩ | ⟨h1, h2, h3⟩ | ⟨h1, h2, _, h4⟩ | ⟨e, h1, h2, h4⟩
   · exact Or.inl ⟨h1, h2⟩
   · refine Or.inr (Or.inl ⟨h1, h2, ?_⟩)
     intro hA'
     rw [h3 (by simp), getLast?_tail_of_length x A' hA']
-  · refine Or.inr (Or.inr (Or.inl ⟨h1, h2, hne h2, ?_⟩))
-    rw [h4, getLast?_tail_of_length x A' (hne h2)]
-  · refine Or.inr (Or.inr (Or.inr ⟨e, h1, h2, ?_⟩))
-    rw [← h4, getLast?_tail_of_length x A' (hne h2)]
+  · have hA' := hne h2 (by simp [h1])
+    refine Or.inr (Or.inr (Or.inl ⟨h1, h2, hA', ?_⟩))
+    rw [h4, getLast?_tail_of_length x A' hA']
+  · have hA' := hne h2 (by simp [h1])
+    refine Or.inr (Or.inr (Or.inr ⟨e, h1, h2, ?_⟩))
+    rw [← h4, getLast?_tail_of_length x A' hA']
+
+theorem cl2_viewBase (buf : List Sto) (base h : Int) (hs : Cl2Shape buf base h) : viewBase buf base = h := by
+  rcases hs with rfl | ⟨rfl, rfl⟩ <;> simp [viewBase]
+
+theorem rc1_viewTop (buf : List Sto) (top base lb lt sh off : Int) (h : Rc1Shape buf top base lb lt sh off) :
+    viewTop buf top = top := by
+  rcases h with ⟨h1, _⟩ | ⟨h1, _⟩ <;> simp [h1, viewTop]
+
+theorem rc1_viewBase (buf : List Sto) (top base lb lt sh off : Int) (h : Rc1Shape buf top base lb lt sh off) :
+    viewBase buf base = base := by
+  rcases h with ⟨h1, _⟩ | ⟨h1, _⟩ <;> simp [h1, viewBase]
+
+theorem rc2_viewTop (buf : List Sto) (top base lb lt sh off : Int) (h : Rc2Shape buf top base lb lt sh off) :
+    viewTop buf top = lt + sh := by
+  rcases h with ⟨rfl, rfl, _⟩ | ⟨rfl, rfl, _⟩ | ⟨rfl, rfl, rfl, _⟩ <;> simp [viewTop]
+
+theorem rc2_viewBase (buf : List Sto) (top base lb lt sh off : Int) (h : Rc2Shape buf top base lb lt sh off) :
+    viewBase buf base = base := by
+  rcases h with ⟨h1, _⟩ | ⟨h1, _⟩ | ⟨h1, _⟩ <;> simp [h1, viewBase]
+
+theorem rcshape_viewBase (buf : List Sto) (top base lb lt sh : Int) (h : RcShape buf top base lb lt sh) :
+    viewBase buf base = lb + sh := by
+  rcases h with (rfl | ⟨rfl, rfl⟩ | ⟨rfl, rfl, _⟩) | ⟨rfl, rfl, _, rfl⟩ <;> simp [viewBase]
+
+theorem rcpre_append (buf suf : List Sto) (top lb lt sh : Int) (x : Sto) (h : RcPre buf suf top lb lt sh) :
+    RcPre (buf ++ [x]) (suf ++ [x]) top lb lt sh := by
+  rcases h with h1 | ⟨h1, h2⟩ | ⟨h1, h2, h3⟩
+  · exact Or.inl (by simp [h1])
+  · exact Or.inr (Or.inl ⟨by simp [h1], h2⟩)
+  · exact Or.inr (Or.inr ⟨by simp [h1], h2, h3⟩)
+
+/-- the memory-side window after a base-side insertion (drain of an inserting `base` store) -/
+theorem mwin_cons (A : List Elem) (ptr : Int → Option Elem) (lb top : Int) (g : Prop) (e : Elem)
+    (hmwin : ∀ k : Nat, k < A.length → (lb + k < top ∨ g) → ptr (lb + k) = A[k]?)
+    (hp : ptr (lb - 1) = some e) :
+    ∀ k : Nat, k < (e :: A).length → (lb - 1 + k < top ∨ g) → ptr (lb - 1 + k) = (e :: A)[k]? := by
+  intro k hk hk2
+  cases k with
+  | zero => simp [hp]
+  | succ j =>
+    have h1 := hmwin j (by simp at hk; omega) (hk2.elim (fun h => Or.inl (by omega)) Or.inr)
+    simp only [List.getElem?_cons_succ]
+    rw [← h1]; congr 1; omega
+
+/-- the complete window after the drain of a shift entry -/
+theorem mwin_shift (A : List Elem) (ptr : Int → Option Elem) (lb lt off : Int)
+    (hlen : (A.length : Int) = lt - lb)
+    (hfull : ∀ k : Nat, k < A.length → ptr (lb + k) = A[k]?) :
+    ∀ k : Nat, k < A.length → shiftPtr ptr lb lt off (lb + off + k) = A[k]? := by
+  intro k hk
+  rw [shiftPtr_apply, if_pos (by omega), ← hfull k hk]
+  congr 1; omega
 
 /-- while somebody else holds the lock the owner is not on its reset path -/
 theorem thief_not_resetting (s : St) (h : Inv s) (p : Pid) (hl : s.lock = .thief p) : resetting s.opc = false := by
@@ -67,16 +139,20 @@ macro "tso_simp_h" : tactic => `(tactic|
 macro "tso_finish" : tactic => `(tactic| (
     constructor
     all_goals (try simp only [ownerLocked, carry, resetting, ownerFlight, upd_apply, applySto])
-    all_goals (first | assumption | grind [thiefLocked, mayBuf, notTrans, thiefFlight, List.length_dropLast] | grind [thiefLocked, mayBuf, notTrans, thiefFlight, List.length_dropLast, getLast?_tail_of_length, CarryShape, Pu2Shape, PofShape, Po6Shape, Po8Shape, Po9Shape, InsShape, TkfShape, Tk6Shape] | skip)))
+    all_goals (first | assumption | grind [thiefLocked, mayBuf, notTrans, thiefFlight, popWin, List.length_dropLast] | grind [thiefLocked, mayBuf, notTrans, thiefFlight, popWin, List.length_dropLast, getLast?_tail_of_length, head?_append_of_ne, CarryShape, Pu2Shape, PofShape, Po6Shape, Po8Shape, Po9Shape, InsShape, Rc1Shape, Rc2Shape, RcPre, RcShape, Po5cShape, Cl2Shape, Cl3Shape, Wk4uShape, Vk5Shape, VuShape, TkfShape, Tk6Shape] | skip)))
 
 /-- the closing part of `tso_finish`, for proofs that treat some clauses by hand after `constructor` -/
 macro "tso_rest" : tactic => `(tactic| (
-    all_goals (first | assumption | grind [thiefLocked, mayBuf, notTrans, thiefFlight, List.length_dropLast] | grind [thiefLocked, mayBuf, notTrans, thiefFlight, List.length_dropLast, getLast?_tail_of_length, upd_apply, CarryShape, Pu2Shape, PofShape, Po6Shape, Po8Shape, Po9Shape, InsShape, TkfShape, Tk6Shape] | skip)))
+    all_goals (first | assumption | grind [thiefLocked, mayBuf, notTrans, thiefFlight, popWin, List.length_dropLast] | grind [thiefLocked, mayBuf, notTrans, thiefFlight, popWin, List.length_dropLast, getLast?_tail_of_length, head?_append_of_ne, upd_apply, CarryShape, Pu2Shape, PofShape, Po6Shape, Po8Shape, Po9Shape, InsShape, Rc1Shape, Rc2Shape, RcPre, RcShape, Po5cShape, Cl2Shape, Cl3Shape, Wk4uShape, Vk5Shape, VuShape, TkfShape, Tk6Shape] | skip)))
+
+/-- a store at the head of the owner's buffer that no buffer-shape clause of this program counter allows -/
+macro "tso_absurd" : tactic => `(tactic|
+  grind [CarryShape, Pu2Shape, PofShape, Po5cShape, Po6Shape, Po8Shape, Po9Shape, InsShape, Rc1Shape, Rc2Shape, RcPre, RcShape, Cl2Shape, Cl3Shape])
 
 /-- like `tso_finish`, with the shapes unfolded at once (flush steps) -/
 macro "tso_finish3" : tactic => `(tactic| (
     constructor
     all_goals (try simp only [ownerLocked, carry, resetting, ownerFlight, upd_apply, applySto])
-    all_goals (first | assumption | grind [thiefLocked, mayBuf, notTrans, thiefFlight, List.length_dropLast, getLast?_tail_of_length, upd_apply, CarryShape, Pu2Shape, PofShape, Po6Shape, Po8Shape, Po9Shape, InsShape, TkfShape, Tk6Shape] | skip)))
+    all_goals (first | assumption | grind [thiefLocked, mayBuf, notTrans, thiefFlight, popWin, List.length_dropLast, getLast?_tail_of_length, head?_append_of_ne, upd_apply, CarryShape, Pu2Shape, PofShape, Po6Shape, Po8Shape, Po9Shape, InsShape, Rc1Shape, Rc2Shape, RcPre, RcShape, Po5cShape, Cl2Shape, Cl3Shape, Wk4uShape, Vk5Shape, VuShape, TkfShape, Tk6Shape] | skip)))
 
 end MythVerif.WsqTso
